@@ -2,6 +2,7 @@ package listener
 
 import (
 	"encoding/hex"
+	"math"
 	"math/big"
 
 	"github.com/ChainSafe/sygma-relayer/chains/btc/config"
@@ -37,12 +38,12 @@ func DecodeDepositEvent(evt btcjson.TxRawResult, resource config.Resource, feeAd
 			isBridgeDeposit = true
 			resourceID = resource.ResourceID
 			if vout.ScriptPubKey.Type == WitnessV1Taproot {
-				amount.Add(amount, big.NewInt(int64(vout.Value*1e8)))
+				amount.Add(amount, big.NewInt(btcToSatoshi(vout.Value)))
 			}
 		}
 
 		if feeAddress.String() == vout.ScriptPubKey.Address {
-			feeAmount.Add(feeAmount, big.NewInt(int64(vout.Value*1e8)))
+			feeAmount.Add(feeAmount, big.NewInt(btcToSatoshi(vout.Value)))
 		}
 	}
 
@@ -56,6 +57,13 @@ func DecodeDepositEvent(evt btcjson.TxRawResult, resource config.Resource, feeAd
 		Amount:        amount,
 		Data:          data,
 	}, true, nil
+}
+
+// btcToSatoshi converts a BTC value decoded from JSON into satoshi. The float64 nearest to an
+// 8-decimal value times 1e8 can fall just below the integer (0.00000003*1e8 = 2.9999999999999996),
+// so the product is rounded to the nearest integer instead of truncated.
+func btcToSatoshi(value float64) int64 {
+	return int64(math.Round(value * 1e8))
 }
 
 func SliceTo32Bytes(in []byte) [32]byte {
